@@ -19,7 +19,9 @@ Level 2 (SimulationResults): chunks become result sets with two named results;
     every partition x every association order of `merge_all_results`, started
     from an empty accumulator and from the first chunk; the same for
     `append_all_results`; optional 'num_skipped_reps' result in a subset of the
-    chunks.  Same oracles, same operand snapshots.
+    chunks; every left fold mixing merge_all_results and append_all_results (the
+    accumulator then holds several results per name and only the last one may
+    absorb a merge).  Same oracles, same operand snapshots.
 
 Level 3 (combine_simulation_results / combine_simulation_parameters): one or
     two unpacked parameters, every ordered pair of non-empty value subsets of a
@@ -28,6 +30,7 @@ Level 3 (combine_simulation_results / combine_simulation_parameters): one or
     reference statistics of "history in operand 1 followed by history in
     operand 2"; operands must be unchanged.
 """
+import copy
 import itertools
 
 import numpy as np
@@ -43,7 +46,8 @@ RULE = ("result level: every observation sequence of length <= L over the per-ty
         "E ::= new | E.update(o) | E.merge(E) reading the sequence in order (superset of every contiguous "
         "partition x every merge association order) x accumulate on/off, plus terms with one empty-sided merge "
         "for shorter sequences; set level: two named results x every partition x every association order of "
-        "merge_all_results / append_all_results x empty or non-empty accumulator x num_skipped_reps masks; union "
+        "merge_all_results / append_all_results x empty or non-empty accumulator x num_skipped_reps masks, and every "
+        "mixed merge/append left fold (accumulator holding several results per name: only the last is merged); union "
         "level: every ordered pair of non-empty value subsets (49, x9 with a second unpacked parameter) x "
         "per-value histories. Oracles: sufficient-statistics reference model, one object fed the whole "
         "sequence, operand snapshots after every merge. A case is non-trivial when it executes at least one "
@@ -396,7 +400,7 @@ def new_result(t, acc, name="r"):
 def fed(t, acc, obs, name="r"):
     r = new_result(t, acc, name)
     for o in obs:
-        r.update(*o)
+        r.update(*copy.deepcopy(o))     # the alphabet must never be aliased by the implementation
     return r
 
 
@@ -416,7 +420,7 @@ class Exec:
             r = new_result(self.t, self.acc)
         elif k == "upd":
             r = self.run(term[1])
-            r.update(*self.obs[term[2]])
+            r.update(*copy.deepcopy(self.obs[term[2]]))
             self.updates += 1
             self.c.outcome("result_states", dg(canon(vars(r))))
         else:
@@ -527,7 +531,7 @@ def make_set(types, acc, obs_by_name, skipped):
     for name, t in zip(("a", "b"), types):
         obs = obs_by_name[name]
         if len(obs) == 1 and not acc:
-            o = obs[0]
+            o = copy.deepcopy(obs[0])
             if t == "CHOICE":
                 s.add_new_result(name, R.CHOICETYPE, o[0], CHOICE_NUM)
             elif t == "RATIO":
@@ -750,7 +754,7 @@ def hist(t, which, hv, x, y):
     return [al[(k + j) % 3] for j in range(n)]
 
 
-def build_operand(t, acc, which, hv, xs, ys, order):
+def build_operand(t, acc, which, hv, xs, ys, order, empty=False):
     from pyphysim.simulations.parameters import SimulationParameters
     from pyphysim.simulations.results import SimulationResults
     R = _R()
@@ -770,7 +774,7 @@ def build_operand(t, acc, which, hv, xs, ys, order):
     # documented order: unpacked names sorted, cartesian product, last name fastest
     for x in xs:
         for y in (ys if ys is not None else [None]):
-            s.append_result(fed(t, acc, hist(t, which, hv, x, y), "r"))
+            s.append_result(fed(t, acc, [] if empty else hist(t, which, hv, x, y), "r"))
             tag = R("tag", R.SUMTYPE)
             tag.update(100 * x + (y or 0))
             s.append_result(tag)
@@ -781,9 +785,10 @@ def run_union_case(c, case):
     from pyphysim.simulations.results import combine_simulation_results
     t, acc, hv = case["type"], case["acc"], case["hv"]
     x1, x2, y1, y2 = case["x1"], case["x2"], case["y1"], case["y2"]
+    empty = bool(case.get("empty"))     # operands hold results that were never updated
     with c.guard(("combine_simulation_results", t), case):
-        s1 = build_operand(t, acc, 0, hv, x1, y1, case["order"])
-        s2 = build_operand(t, acc, 1, hv, x2, y2, case["order"])
+        s1 = build_operand(t, acc, 0, hv, x1, y1, case["order"], empty)
+        s2 = build_operand(t, acc, 1, hv, x2, y2, case["order"], empty)
         snap1, snap2 = canon(vars(s1)), canon(vars(s2))
         u = combine_simulation_results(s1, s2)
         c.count("eval_union_cases")
@@ -824,6 +829,8 @@ def run_union_case(c, case):
             in1 = x in x1 and (y is None or y in y1)
             in2 = x in x2 and (y is None or y in y2)
             obs = (hist(t, 0, hv, x, y) if in1 else []) + (hist(t, 1, hv, x, y) if in2 else [])
+            if empty:
+                obs = []
             ref = Ref(t, obs)
             outcome.append(int(in1) + 2 * int(in2))
             # the union is built from non-accumulating results: lists are not part of the law
@@ -852,6 +859,13 @@ def run_union_case(c, case):
 def union_cases(types_ok, tier):
     xs = nonempty_subsets(XU)
     ys = nonempty_subsets(YU)
+    if "CHOICE" not in types_ok:
+        # CHOICE results cannot be updated on this tree, but they can still be
+        # constructed, stored and combined: never-updated operands
+        for x1 in xs:
+            for x2 in xs:
+                yield {"level": "union", "type": "CHOICE", "acc": False, "hv": 0, "order": "asc",
+                       "x1": x1, "x2": x2, "y1": None, "y2": None, "empty": True}
     hvs = (0, 1, 2) if tier == "thorough" else (0,)
     orders = ("asc", "desc")
     for t in types_ok:
